@@ -576,7 +576,8 @@ pub fn get_exif_metadata(entry: &DirEntry) -> Option<HashMap<String, String>> {
                         exif_info.insert(
                             field_tag,
                             vec.iter()
-                                .map(|r| (r.num / r.denom).to_string())
+                                // a damaged file may carry a denominator of 0
+                                .map(|r| r.num.checked_div(r.denom).unwrap_or(0).to_string())
                                 .collect::<Vec<String>>()
                                 .join(";"),
                         );
